@@ -51,6 +51,8 @@ type Val struct {
 	Clo   *Closure // function values created on this path
 	Dyn   types.Type // interfaces: dynamic type when statically known on this path
 	Payload *Val     // interfaces: boxed value when known on this path
+	ArrLen  int      // slices of a whole fixed-size array created on this path (variadic arguments): its length
+	ArrBase string
 }
 
 type deferred struct {
@@ -510,4 +512,21 @@ func shortPos(fset *token.FileSet, p token.Pos) string {
 		f = f[i+6:]
 	}
 	return fmt.Sprintf("%s:%d", f, pp.Line)
+}
+
+// assumeZeroArray states that every element of the (freshly allocated) array term is the zero value of et.
+func (s *State) assumeZeroArray(arr string, et types.Type) {
+	so := s.e.sortOf(et)
+	z := s.e.zero(et)
+	if so == "Int" || so == "Bool" {
+		s.assume(eq(arr, "((as const (Array Int "+so+")) "+z+")"))
+		return
+	}
+	// cvc5 accepts only values in constant arrays: use a quantified fact for uninterpreted/datatype sorts
+	a := s.name("za", "(Array Int "+so+")", arr)
+	if a == arr {
+		a = s.freshSort("za", "(Array Int "+so+")")
+		s.assume(eq(a, arr))
+	}
+	s.assume("(forall ((i Int)) (! (= (select " + a + " i) " + z + ") :pattern ((select " + a + " i))))")
 }
